@@ -10,7 +10,9 @@ ASSUMPTIONS = ["device id is 6 hex digits, login key 2 hex digits; the login rep
                "accepted arguments as in DESIGN.md appendix B; for rejected arguments only 'no malformed frame is written' is required"]
 RULE = ("all 12 operation kinds of both API classes with random ids, keys, clock readings, sessions and arguments (boundary "
         "values of every encoder mixed in), thermostat control with generated IR sets whose code texts have lengths around the "
-        "15/16 and 255/256 byte boundaries of the two length fields, plus a sample over loopback TCP; "
+        "15/16 and 255/256 byte boundaries of the two length fields, every kind with an empty reply at each step in turn, "
+        "constructed arguments whose last four payload bytes equal the signature of the bytes before them (timer, name tail, IR code "
+        "tail), plus a sample over loopback TCP; "
         "non-trivial = distinct cases in which at least one command frame follows the login frame")
 REQUIREMENT = ("every written byte string: bytes 0-1 = fe f0, bytes 2-3 = LE16 of its own length, bytes 38-39 = f0 fe, "
                "last 4 bytes = sig(all preceding bytes) with sig the double CRC of Spec/Sign.v (Spec/Frame.v frame_okb)")
@@ -59,6 +61,60 @@ def boundary_cases(rnd):
     return cs
 
 
+def fault_cases(rnd, reps):
+    """every operation kind with an empty reply injected at every step in turn (thermostat control: both flavours)"""
+    cs = []
+    for _ in range(reps):
+        for k in range(1, 13):
+            base = world.rand_op_case(rnd, k, "valid", True)
+            if k == 12:
+                irset = world.gen_irset(rnd); base["args"] = world.rand_breeze_args(rnd, irset)
+                base["args"][1] = rnd.random() < .5; base["args"][2] = rnd.choice(world.MODE_NAMES)
+            for i in range(len(base["replies"])):
+                c = dict(base, replies=list(base["replies"])); c["replies"][i] = ""; cs.append(c)
+    return cs
+
+
+def spec_sig(prefixes):
+    """signature the Spec gives each hex prefix (last 8 hex characters of the signed text)"""
+    return [t[-8:] for t in lib.run_model([lib.req("sign_spec", p) for p in prefixes])]
+
+
+def printable(sig): return all(0x20 <= b <= 0x7e and b != 0x7c for b in bytes.fromhex(sig))
+
+
+def self_signed_cases(rnd, n):
+    """arguments chosen so that the last four payload bytes of the command frame equal the signature of everything before
+    them: the timer of control_device, the tail of a 32-byte name, the tail of an IR code text"""
+    cand = []
+    for _ in range(n):
+        c = world.rand_op_case(rnd, 1, "valid", True); c["args"] = [rnd.random() < .5, 1]; cand.append(c)
+        c = world.rand_op_case(rnd, 3, "valid", True); c["args"] = ["n" * 28 + "tail"]; cand.append(c)
+        c = world.rand_op_case(rnd, 12, "valid", True); irset = world.gen_irset(rnd)
+        stem = "".join(rnd.choice("0123456789ABCDEF") for _ in range(rnd.choice([4, 30, 243, 251, 600])))
+        for w in irset["IRWaveList"]: w["Para"] = "P"; w["HexCode"] = stem + "tail"
+        c["args"] = world.rand_breeze_args(rnd, irset); c["args"][1] = True; c["args"][2] = rnd.choice(world.MODE_NAMES); c["args"][6] = False
+        cand.append(c)
+    texts = lib.run_model([world.model_line(c) for c in cand])
+    cmd = []
+    for c, t in zip(cand, texts):
+        fs, _ = oc.split_text(t); k = 1 if c["kind"] != 12 else 2
+        cmd.append(fs[k][:-16] if len(fs) > k and len(fs[k]) > 100 else "")
+    sigs = spec_sig(cmd); out = []
+    for c, pre, sg in zip(cand, cmd, sigs):
+        if not pre: continue
+        if c["kind"] == 1:
+            t = int.from_bytes(bytes.fromhex(sg), "little")
+            if t % 60 == 0 and t > 0: c["args"][1] = t // 60; out.append(c)
+        elif printable(sg):
+            tail = bytes.fromhex(sg).decode("ascii")
+            if c["kind"] == 3: c["args"] = ["n" * 28 + tail]
+            else:
+                for w in c["args"][0]["IRWaveList"]: w["HexCode"] = w["HexCode"][:-4] + tail
+            out.append(c)
+    return out
+
+
 def run(tier, rnd, out):
     n = 40 if tier == "quick" else 600
     corpus = lib.load_corpus("C01")
@@ -67,6 +123,10 @@ def run(tier, rnd, out):
     run_stream(out, "operations", cs, world.run_cases_fresh(cs))
     cs = oc.mixed_cases(rnd, max(4, n // 10), reply_mode="faulty")
     run_stream(out, "operations-faulty-replies", cs, world.run_cases_fresh(cs))
+    cs = fault_cases(rnd, 2 if tier == "quick" else 40)
+    run_stream(out, "empty-reply-at-each-step", cs, world.run_cases_fresh(cs))
+    cs = self_signed_cases(rnd, 150 if tier == "quick" else 3000)
+    run_stream(out, "payload-tail-equals-its-own-signature", cs, world.run_cases_fresh(cs))
     tcp = [c for c in oc.mixed_cases(rnd, 3 if tier == "quick" else 25) if all(len(r) > 0 for r in c["replies"])]
     run_stream(out, "operations-over-tcp", tcp, asyncio.run(oc.run_tcp(tcp)))
     out.notes.append("frames are observed at writer.write (in-process stream) and, for the tcp stream, as received by a fake device")
